@@ -35,6 +35,21 @@ Theorem C13_exact_header_parser_agrees : forall buf off, uclean (sub buf off 60)
 Proof. exact ar_next_u_clean. Qed.
 Print Assumptions C13_exact_header_parser_agrees.
 
+(* the reader underneath: LoadAr takes an io.ReaderAt, whose contract lets a read that ends exactly at the end of the
+   input come with io.EOF or without.  Whatever a reader chooses ([eager]), LoadAr and the iteration give the members,
+   bytes and end of the buffer model - so every statement above holds for every contract-conforming reader.  The code
+   before repair ed23e1b did depend on that choice (witness: the archive without members) *)
+Require ARrd.
+Theorem C13_any_contract_conforming_reader : forall eager buf, ARrd.ar_open_rd eager buf = ar_open buf.
+Proof. exact ARrd.ar_open_any_reader. Qed.
+Theorem C13_next_any_contract_conforming_reader : forall eager buf off, ARrd.ar_next_rd eager buf off = ar_next buf off.
+Proof. exact ARrd.ar_next_any_reader. Qed.
+Theorem C13_pinned_loadar_refuted :
+  ARrd.check_ar_pinned (fun _ _ => false) magic = true /\ ARrd.check_ar_pinned (fun _ _ => true) magic = false /\
+  ARrd.check_ar (fun _ _ => true) magic = true /\ ARrd.ar_open_rd (fun _ _ => true) magic = Some ([], true).
+Proof. exact ARrd.check_ar_pinned_refuted. Qed.
+Print Assumptions C13_any_contract_conforming_reader.
+
 Example C13_nonvacuous : wf_member {| m_name := s "debian-binary"; m_slash := true; m_ts := s "1"; m_uid := []; m_gid := s "0";
                                       m_mode := s "100644"; m_size := s "3"; m_data := s "2.0"; m_pad := "000"%char |}.
 Proof. constructor; cbn; repeat split; try lia; try reflexivity; repeat constructor. Qed.
